@@ -19,6 +19,7 @@ mod c17;
 mod c18;
 mod c19;
 mod c24;
+mod c25;
 mod util;
 
 use serde_json::{json, Value};
@@ -92,6 +93,8 @@ fn search(twin: &str, case: Option<&str>, seed: u64) -> Option<Value> {
         c19::search(twin, case, seed)
     } else if twin.starts_with("c24.") {
         c24::search(twin, case, seed)
+    } else if twin.starts_with("c25.") {
+        c25::search(twin, case, seed)
     } else if twin.starts_with("c17.") {
         c17::search(twin, case, seed)
     } else {
@@ -116,6 +119,8 @@ fn replay(twin: &str, input: &Value) -> Value {
         c19::replay(twin, input)
     } else if twin.starts_with("c24.") {
         c24::replay(twin, input)
+    } else if twin.starts_with("c25.") {
+        c25::replay(twin, input)
     } else if twin.starts_with("c17.") {
         c17::replay(twin, input)
     } else {
@@ -140,6 +145,8 @@ fn sweep(twin: &str, seed: u64) -> Value {
         c19::sweep(twin, seed)
     } else if twin.starts_with("c24.") {
         c24::sweep(twin, seed)
+    } else if twin.starts_with("c25.") {
+        c25::sweep(twin, seed)
     } else if twin.starts_with("c17.") {
         c17::sweep(twin, seed)
     } else {
